@@ -1743,6 +1743,15 @@ func c13RunJob(job c13Job, col *c13Collector) {
 				} else {
 					col.hist("flips.region", "values")
 				}
+				if c13SortedSchema(cfg.Schema) && p.Kind != "dict" {
+					// where the faulted page sits relative to the 24 rows a merge input buffers at first: behind
+					// them it is reached by a refill in the middle of the merge
+					if p.FirstRow >= 24 {
+						col.hist("flips.merge_input_page", "reached-by-refill")
+					} else {
+						col.hist("flips.merge_input_page", "in-first-buffer")
+					}
+				}
 				modelSeen := map[string]bool{}
 				accs := env.accesses(p, rr)
 				firstSeek := int64(-1)
